@@ -169,6 +169,7 @@ def build(prog):
     if prog.get("_on_pep"):
         prog["_on_pep"]()
     b.pep = pep
+    b.prog = prog
     b.held = {}          # name -> object the user holds
     b.user_decl = []     # what the user declared through the public API, recorded AT DECLARATION TIME:
                          # ("sc", constraint) | ("lmi", PSDMatrix object, [entry expressions as written by the user])
@@ -318,6 +319,15 @@ def build(prog):
                 M = [[2 * (Fsum(xx) - Fsum(b.held["xs"])) + 1, t], [t, 1]]
             else:
                 M = [[2 * dd + 1, t], [t, 1]]
+        elif code == "Z2":      # the off-diagonal entry is a product of two points built with explicit zero coefficients
+            # (the documented constructor): its dictionary holds (x0, y):1 and the MIRRORED key (y, x0):0
+            lp = [p_ for p_ in Point.list_of_leaf_points if p_ is not x0_]
+            y_ = lp[0]
+            u_ = Point(is_leaf=False, decomposition_dict={x0_: 1, y_: 0})
+            v_ = Point(is_leaf=False, decomposition_dict={y_: 1, x0_: 0})
+            w_ = u_ * v_
+            M = [[dd + x0_ ** 2 + y_ ** 2 + 1, w_], [w_, 1]]
+            b.held["w%d" % k] = w_
         elif code == "B2":      # declared from a numpy object array that the user re-uses for a second LMI
             buf = np.empty((2, 2), dtype=object)
             buf[0, 0], buf[0, 1], buf[1, 0], buf[1, 1] = dd + 1, t, t, 1
